@@ -58,6 +58,13 @@ dbus_bool_t _dbus_decompose_path (const char   *data,
                                   char       ***path,
                                   int          *path_len);
 
+#ifdef DBUS_VERIF
+#include <dbus/dbus-string.h>
+DBUS_PRIVATE_EXPORT
+dbus_bool_t _dbus_verif_object_tree_dump (DBusObjectTree *tree,
+                                          DBusString     *out);
+#endif
+
 DBUS_END_DECLS
 
 #endif /* DBUS_OBJECT_TREE_H */
